@@ -13,7 +13,7 @@ CONSTANTS Nib = {0, 1}
           BOps <- OpsIns
           BatchLens = {}
           BatchSet <- MCBatchSet
-INVARIANTS CanonInv LookupInv IterInv WFInv BatchInv
+INVARIANTS CanonInv LookupInv IterInv IterFromInv WFInv BatchInv
 CONSTRAINT Small
 VIEW View
 CHECK_DEADLOCK FALSE
